@@ -443,7 +443,7 @@ def run(env, with_model=True):
     rnd = random_codepage(env, cp, env.budget(400, 4000))
     g = progs.ProgGen(env.rng, payload_chars=ALPHABET + ["`", "«", "»"])
     gen = [progs.text(g.program(env.rng.randint(1, 4))) for _ in range(env.budget(400, 4000))]
-    uni = random_unicode(env, cp, env.budget(1500, 15000))
+    uni = random_unicode(env, cp, env.budget(1500, 10000))
     marked = [(name, m, inject(tpl, m)) for name, tpl in POSITIONS for m in MARKERS]
     var_single, var_pair = variable_sources(cp)
     var_pair_corr = env.rng.sample(var_pair, min(len(var_pair), env.budget(1500, 8000)))
@@ -471,7 +471,7 @@ def run(env, with_model=True):
         rest = [s for s in corr if s not in must]
         corr = [s for s in corr if s in must] + env.rng.sample(rest, max(0, 6000 - len(must & set(corr))))
         env.note("correspondence_quick_sample", {"sources_compared": len(corr)})
-    cap = 90000
+    cap = 60000
     if len(corr) > cap:
         # the Coq-side comparison is the expensive part: every position payload up to length
         # quick_len - 1 and every shorter raw string is kept, the top lengths are sampled (the
